@@ -166,7 +166,7 @@ pub fn test_case(case: &TrainCase) -> TestResult {
 pub fn run(rep: &mut Report) {
     liblinear::toggle_liblinear_stdout_output(false);
     let _guard = util::redirect_output("/verif/target/C09-train-output.log");
-    let n = rep.n(20000, 200000);
+    let n = rep.n(20000, 1000000);
     rep.run_prop(
         "trained-function",
         "generated training configurations (window and n-gram sizes 0..4 incl. differing windows \
